@@ -147,6 +147,19 @@ theorem C11_cache_same_object (c : Cache) (frame : Nat) (b b' : Bool) (id : Nat)
     ((c.request frame b).1.request frame b').1 = (c.request frame b).1 :=
   cache_same c frame b b' id h
 
+/-- **C11, cache across utterances.** After `decoder_start_utt` the first lattice request of the new utterance
+never hands out an object of an earlier utterance — whatever its frame count, also the frame count of the lattice
+cached before: it returns nothing (no lattice yet) or a freshly built object (`nextId`, an identity not handed out
+before), and within the new utterance the same-frame rule applies again. -/
+theorem C11_cache_new_utterance (c : Cache) (frame : Nat) (b : Bool) :
+    (c.startUtt.request frame b).2 = (if b then some c.nextId else none) ∧
+    ∀ b' id, (c.startUtt.request frame b).2 = some id →
+      ((c.startUtt.request frame b).1.request frame b').2 = some id := by
+  constructor
+  · cases b <;> simp [Cache.startUtt, Cache.request]
+  · intro b' id h
+    exact (cache_same c.startUtt frame b b' id h).1
+
 /-! ### non-vacuity: a lattice with both markers, two start candidates and two end candidates -/
 
 /-- grammar: `sil* go sil* (forward | ford) sil*` with states 0,1,2; word ids sil=0 go=1 forward=2 ford=3 -/
@@ -189,6 +202,12 @@ example : latticeOKB exG { exL with links := exL.links.map fun l => if l = ⟨6,
   decide
 
 -- the cache hands out the same object until the frame count changes
+-- a second utterance of the same frame count gets a new object, not the cached one
+example : let c0 : Cache := { dag := none, nextId := 0 }
+    let r1 := c0.request 279 true
+    let r2 := r1.1.startUtt.request 279 true
+    (r1.2, r2.2) = (some 0, some 1) := by decide
+
 example : let c0 : Cache := { dag := none, nextId := 0 }
     let r1 := c0.request 120 true
     let r2 := r1.1.request 120 true
